@@ -28,32 +28,35 @@ type LoopSpec struct {
 }
 
 type FuncSpec struct {
-	Key      string // "<pkgpath>.<relname>"
-	Pkg      string
-	Name     string
-	Requires []Clause
-	Decreases *Clause // termination measure for (self-)recursive functions
-	CallsEach string // higher-order clause: slice(args...) — calls every element in order
-	CallPre  map[string][]Clause // extra obligations at the call sites of a callee inside this function
-	Physical []Clause // free preconditions: assumed on both sides (event counters below 2^49, stored objects exist)
-	Ensures  []Clause
-	Modifies []Clause
-	ModAll   bool
-	HasMod   bool
-	Checks   map[string]bool
-	Loops    map[int]*LoopSpec
-	Pure     bool // assumed: no visible heap effect
-	Assumed  bool // contract comes from /verif/contracts/assumed (never verified)
-	NonNil   bool // result (pointer/interface) is non-nil
-	NoInline bool
-	Inline   bool
-	NoReturn bool // calling it never returns (log.Fatal, os.Exit): treated as panic
-	NoEscape bool // structural: recover-frame rule
-	FuncType bool // contract of a function type (applies to dynamic calls)
-	Trusted  bool // repository function whose contract is used but not verified (listed as assumption)
-	Nopanic  bool // shorthand for all safety checks
-	File     string
-	Used     bool
+	Key       string // "<pkgpath>.<relname>"
+	Pkg       string
+	Name      string
+	Requires  []Clause
+	Decreases *Clause             // termination measure for (self-)recursive functions
+	Options   map[string]bool     // engine options for this function (e.g. absidx)
+	CallsEach string              // higher-order clause: slice(args...) — calls every element in order
+	CallPre   map[string][]Clause // extra obligations at the call sites of a callee inside this function
+	OnSend    []Clause            // obligations at every channel send inside this function (ch, val bound)
+	OnSendAdd map[string]Clause   // ghost counter updates at every channel send: ghost var += expr(ch, val)
+	Physical  []Clause            // free preconditions: assumed on both sides (event counters below 2^49, stored objects exist)
+	Ensures   []Clause
+	Modifies  []Clause
+	ModAll    bool
+	HasMod    bool
+	Checks    map[string]bool
+	Loops     map[int]*LoopSpec
+	Pure      bool // assumed: no visible heap effect
+	Assumed   bool // contract comes from /verif/contracts/assumed (never verified)
+	NonNil    bool // result (pointer/interface) is non-nil
+	NoInline  bool
+	Inline    bool
+	NoReturn  bool // calling it never returns (log.Fatal, os.Exit): treated as panic
+	NoEscape  bool // structural: recover-frame rule
+	FuncType  bool // contract of a function type (applies to dynamic calls)
+	Trusted   bool // repository function whose contract is used but not verified (listed as assumption)
+	Nopanic   bool // shorthand for all safety checks
+	File      string
+	Used      bool
 }
 
 type SpecFn struct {
@@ -78,15 +81,15 @@ type GhostField struct {
 }
 
 type Specs struct {
-	Funcs    map[string]*FuncSpec
-	SpecFns  map[string]*SpecFn // key pkgpath + "." + name, also bare name for assumed
-	Ghosts   map[string]*GhostField
-	Nullable map[string]bool // "pkgpath.Type.field"
-	UFs      map[string]*UFDecl
-	Axioms   map[string][]Clause // closed facts about an uninterpreted function, assumed where it is used
-	GhostVars map[string]string // global ghost variables: name -> type
+	Funcs     map[string]*FuncSpec
+	SpecFns   map[string]*SpecFn // key pkgpath + "." + name, also bare name for assumed
+	Ghosts    map[string]*GhostField
+	Nullable  map[string]bool // "pkgpath.Type.field"
+	UFs       map[string]*UFDecl
+	Axioms    map[string][]Clause // closed facts about an uninterpreted function, assumed where it is used
+	GhostVars map[string]string   // global ghost variables: name -> type
 	Folds     map[string]*FoldDecl
-	Files    []string
+	Files     []string
 }
 
 func newSpecs() *Specs {
@@ -215,7 +218,20 @@ func (s *Specs) loadSpecFile(path, pkgPath string, assumed bool) error {
 			if lp < 0 || rp < lp {
 				return fmt.Errorf("%s: uf name(T,...) RT", where)
 			}
-			u := &UFDecl{Name: strings.TrimSpace(rest[:lp]), Ret: strings.TrimSpace(rest[rp+1:])}
+			u := &UFDecl{Name: strings.TrimSpace(rest[:lp]), Ret: strings.TrimSpace(rest[rp+1:]), Len: -1}
+			if fs := strings.Fields(u.Ret); len(fs) > 1 {
+				u.Ret = fs[0]
+				switch {
+				case fs[1] == "range" && len(fs) == 4:
+					u.HasRange = true
+					u.Lo, _ = strconv.ParseInt(fs[2], 0, 64)
+					u.Hi, _ = strconv.ParseInt(fs[3], 0, 64)
+				case fs[1] == "len" && len(fs) == 3:
+					u.Len, _ = strconv.ParseInt(fs[2], 0, 64)
+				default:
+					return fmt.Errorf("%s: uf attributes: range lo hi | len n", where)
+				}
+			}
 			for _, p := range splitTop(rest[lp+1:rp], ',') {
 				if p = strings.TrimSpace(p); p != "" {
 					u.Params = append(u.Params, p)
@@ -315,6 +331,15 @@ func (fs *FuncSpec) addDirective(word, rest, where string) error {
 			return err
 		}
 		fs.Requires = append(fs.Requires, c)
+	case "option":
+		if fs.Options == nil {
+			fs.Options = map[string]bool{}
+		}
+		for _, o := range strings.Split(rest, ",") {
+			if o = strings.TrimSpace(o); o != "" {
+				fs.Options[o] = true
+			}
+		}
 	case "decreases":
 		c, err := mkClause(rest, where)
 		if err != nil {
@@ -338,6 +363,27 @@ func (fs *FuncSpec) addDirective(word, rest, where string) error {
 		}
 		name := strings.TrimSpace(rest[:i])
 		fs.CallPre[name] = append(fs.CallPre[name], c)
+	case "onsend-add":
+		// onsend-add <ghost var>: <int expr over ch and val>
+		i := strings.Index(rest, ": ")
+		if i < 0 {
+			return fmt.Errorf("onsend-add <ghost var>: <expr>")
+		}
+		c, err := mkClause(strings.TrimSpace(rest[i+2:]), where)
+		if err != nil {
+			return err
+		}
+		if fs.OnSendAdd == nil {
+			fs.OnSendAdd = map[string]Clause{}
+		}
+		fs.OnSendAdd[strings.TrimSpace(rest[:i])] = c
+	case "onsend":
+		// onsend: <expr over ch (the channel) and val (the value sent, before boxing)>
+		c, err := mkClause(strings.TrimSpace(strings.TrimPrefix(strings.TrimSpace(rest), ":")), where)
+		if err != nil {
+			return err
+		}
+		fs.OnSend = append(fs.OnSend, c)
 	case "physical":
 		c, err := mkClause(rest, where)
 		if err != nil {
